@@ -5,7 +5,7 @@ Structured: a history is `new <n> <func|fd|both|none> <late|early>` followed by 
 the fill level the buffer should have (exactly, from the byte counts of every call) and aims most writes at the
 boundaries: a write that ends one byte before / exactly at / one byte past the end of the buffer, n-1, n, n+1, 2n,
 2n+1 bytes, the 63/64/65-byte edge of write_vstrf's stack buffer (title = 6 bytes of framing), zero-length and
-`len == 0` writes, embedded NULs.  Payload bytes are a running counter so that a lost, duplicated or reordered byte
+`len == 0` writes (which print nothing), embedded NULs.  Payload bytes are a running counter so that a lost, duplicated or reordered byte
 changes the stream.  tier exhaustive: every history of <= 3 writes of length <= 8 with every flush placement, for
 every buffer size <= 6, both output methods.
 Prints one JSON line: the input distribution actually produced."""
@@ -73,11 +73,10 @@ class Hist:
         k = min(k, 9000)
         r = rng.random() if quirk is None else (0.0 if quirk else 0.5)
         if r < 0.07:
-            # len == 0: the strlen quirk; mem holds k bytes (maybe with a NUL inside)
+            # len == 0 with k bytes at the pointer: prints nothing since 6b09beb (before: strlen(mem) bytes)
             b = self.payload(k, nul=rng.random() < 0.3)
-            eff = b.index(0) if 0 in b else k
             self.ops.append("write %s 0" % hexs(b)); dist["write_len0_" + ("empty" if k == 0 else "nonempty")] += 1
-            self.account(eff)
+            self.account(0)
         elif r < 0.14 and k >= 1:
             # a prefix of a longer memory, possibly containing NULs (printn with an explicit length copies them)
             extra = rng.randint(1, 5)
